@@ -46,9 +46,9 @@ def gen_cases(tier, seed):
             if s["type"] != 2 and s["dtype"] == 0xFF and len(s["data"]) == 0:
                 s["data"] = "41"
             specs.append(s)
-        chain = r.choice([["dsk"], ["cas"], ["dsk", "cas"], ["cas", "dsk"], ["dsk", "cas", "dsk"], ["cas", "dsk", "cas"], ["bin"]])
+        chain = r.choice([["dsk"], ["cas"], ["dsk", "cas"], ["cas", "dsk"], ["dsk", "cas", "dsk"], ["cas", "dsk", "cas"], ["bin"], ["both"], ["both"]])
         sel = None
-        if r.random() < 0.5 and chain != ["bin"]:
+        if r.random() < 0.5 and chain not in (["bin"],):
             pick = [s for s in specs if r.random() < 0.6] or [specs[0]]
             style = r.choice(["upper", "lower", "mixed", "asis"])
             sel = {"names": [s["name"] for s in pick], "style": style}
@@ -104,6 +104,34 @@ def run_case(case, ctx):
         tr = {"src": case["src"], "has_empty": has_empty}
         mediamon.set_form("c16")
         for i, tgt in enumerate(case["chain"]):
+            if tgt == "both":
+                # one invocation naming two targets: each must hold every selected file
+                argv = [cur, "--to_cas", "both.cas", "--to_dsk", "both.dsk"]
+                want = expected
+                if case["select"]:
+                    sel = case["select"]
+                    argv += ["--files"] + [respell(n, sel["style"], r) for n in sel["names"]]
+                    chosen = set(n.upper() for n in sel["names"])
+                    want = [e for e in expected if e["name"] in chosen]
+                code, text, exc, events = run_tool(ctx, case, argv, d)
+                wit = {"show": "%s: file_util.py %s -> exit %s %s" % (case["id"], " ".join(argv), code, text.strip().replace("\n", " | ")[-80:]), "files": [G.brief(s) for s in specs]}
+                src_empty = next((j for j, e in enumerate(expected) if len(e["data"]) == 0), None)
+                if case["src"] == "cas" and src_empty is not None:
+                    ctx.outcome("skipped-both-with-empty")
+                    return
+                for nm, kindname in (("both.cas", "cassette"), ("both.dsk", "disk")):
+                    pth = os.path.join(d, nm)
+                    kind, got = hostcli.kind_of(open(pth, "rb").read()) if os.path.exists(pth) else ("missing", [])
+                    has_e = any(len(e["data"]) == 0 for e in want)
+                    diff = hostcli.same_list(got, want)
+                    if diff:
+                        ctx.violation("convert", "%s->both" % case["src"], "SECOND-TARGET:" + diff if nm == "both.dsk" else diff, dict(wit, target=nm, got=[g["name"] for g in got], want=[w["name"] for w in want]), tr)
+                        ctx.outcome("bad")
+                        return
+                ctx.outcome("ok")
+                ctx.nontriv(case["id"])
+                ctx.cell("step/both-targets")
+                return
             out = "step%d.%s" % (i, tgt)
             argv = [cur, "--to_" + tgt, out]
             sel = case["select"] if i == 0 else None
